@@ -239,6 +239,13 @@ def expand_long(case):
     return [[k, list(range(start, start + L * step, step))] for k, L, start, step in case["long"]]
 
 
+def expand_many(case):
+    """n entries with distinct keys (key j, or (j // 251, j % 251)), row ids [j] / [] / [j, j + n]: the number of ENTRIES, not
+    of row ids, is what sits on a boundary"""
+    n, ar = case["many"], case["arity"]
+    return [[[j] if ar == 1 else [j // 251, j % 251], [j] if j % 3 == 0 else [] if j % 3 == 1 else [j, j + n]] for j in range(n)]
+
+
 def canon(entries):
     return sorted([list(k), list(r)] for k, r in entries)
 
